@@ -145,12 +145,12 @@ func checkC05(c *km.Ctx) {
 		claimsOK := primErrNil("claims verified", RS+"JWTClaims", 0)
 		n := 0
 		for _, rc := range s.RetCases(uj) {
-			if !km.IsNilConst(rc.Ret.Results[1]) {
-				if cl, idx := callRes(km.Unwrap(rc.Ret.Results[1])); cl == nil || idx != 1 {
+			if !km.IsNilConst(rc.Results[1]) {
+				if cl, idx := callRes(km.Unwrap(rc.Results[1])); cl == nil || idx != 1 {
 					continue
 				}
 			}
-			if cs, ok := km.ConstString(rc.Ret.Results[0]); ok && cs == "" {
+			if cs, ok := km.ConstString(rc.Results[0]); ok && cs == "" {
 				continue
 			}
 			n++
@@ -491,7 +491,7 @@ func checkOneTime(c *km.Ctx, s *km.Sem, upd *ssa.Function, isAuthUser func(ssa.V
 		}}
 		n := 0
 		for _, rc := range s.RetCases(fn) {
-			if km.ValStr(rc.Ret.Results[0]) != "true" {
+			if km.ValStr(rc.Results[0]) != "true" {
 				continue
 			}
 			n++
@@ -601,7 +601,7 @@ func checkOneTime(c *km.Ctx, s *km.Sem, upd *ssa.Function, isAuthUser func(ssa.V
 			return f.Op == token.ILLEGAL && !f.Pol && km.Unwrap(f.X) == ssa.Value(fn.Params[2])
 		}}
 		for _, rc := range s.RetCases(fn) {
-			if km.IsNilConst(rc.Ret.Results[0]) {
+			if km.IsNilConst(rc.Results[0]) {
 				continue
 			}
 			ok := rc.State.All(func(k km.Conj) bool { return s.Holds(k, notExpired) && s.Holds(k, notCached) })
